@@ -13,8 +13,8 @@ RULE = ("clause trees written as REAL Rust tuple expressions, regenerated and co
         "arity 2..16 of tagged ordered clauses -- the order in which the real impl visits its elements is read off the responses "
         "and written to TupleOrderCheck.v, where Coq re-checks it is 0..n-1 and instantiates the flatten=leaves theorem; (2) nested "
         "trees (depth <= 3, <= 16 elements per tuple, `()` elements, ordered clauses over 4 methods with counts 0-2 interleaved with "
-        "unordered ones) driven through their whole slot sequence and verified; (3) rejection: a mode conflict (both directions), an "
-        "empty stub or both, placed at every leaf position of a tree, observed at Unimock::new/new_partial. The model runs the SPEC "
+        "unordered ones, ordered then()-chains with an unquantified or counted tail) driven through their whole slot sequence and verified; (3) rejection: a mode conflict (both directions), an "
+        "empty stub or both, placed at every leaf position of a tree, observed at Unimock::new/new_partial (every other one constructed by cleanup code while the thread unwinds). The model runs the SPEC "
         "order (leaves left to right). distinct = canonical JSON; non-trivial = tree with a nested tuple or an offending clause")
 
 VAL_MIDS = [0, 1, 2, 3]
@@ -26,6 +26,16 @@ def leaf_call(mid, opener, tag, count=None, dbg=None):
     if count is not None:
         ops.append(("n", count))
     return {"kind": "call", "mid": mid, "opener": opener, "pat": {"matcher": 255, "dbg": dbg, "ops": ops}}
+
+
+def leaf_calls(ops):
+    """number of calls an ordered chain of responses stands for: the exact counts, plus one for an unquantified last response"""
+    n, pending = 0, False
+    for o in ops:
+        if o[0] in ("ret", "ans", "retd", "pan", "unm", "dfl"): pending = True
+        elif o[0] in ("n",): n += o[1]; pending = False
+        elif o[0] == "once": n += 1; pending = False
+    return n + (1 if pending else 0)
 
 
 def leaves(t):
@@ -115,8 +125,13 @@ def random_tree(rng, fresh, depth_left, max_width):
             out.append(random_tree(rng, fresh, depth_left - 1, max(2, max_width // 2)))
         elif r < 0.38:
             out.append(None)
-        elif r < 0.8:
+        elif r < 0.68:
             out.append(leaf_call(rng.choice(VAL_MIDS[:3]), "next", fresh(), rng.choice([None, None, 0, 1, 2])))
+        elif r < 0.8:
+            # an ordered then()-chain: exact counts before then(), the last response unquantified (one more call) or counted
+            leaf = leaf_call(rng.choice(VAL_MIDS[:3]), "next", fresh(), rng.choice([1, 2]))
+            leaf["pat"]["ops"] += [("then",), ("ret", fresh())] + rng.choice([[], [], [("n", rng.choice([1, 2]))]])
+            out.append(leaf)
         else:
             out.append(leaf_call(3, rng.choice(["each", "some"]), fresh(), None if rng.random() < 0.5 else rng.randint(0, 2)))
     return out
@@ -127,8 +142,7 @@ def slot_events(rng, ls):
     for t in ls:
         if t["kind"] != "call" or t["opener"] != "next":
             continue
-        ops = t["pat"]["ops"]
-        cnt = ops[1][1] if len(ops) > 1 else 1
+        cnt = leaf_calls(t["pat"]["ops"])
         evs += [{"base": ("call", 0, t["mid"], rng.randrange(8))} for _ in range(cnt)]
     for t in ls:
         if t["kind"] == "call" and t["opener"] in ("each", "some"):
@@ -204,7 +218,10 @@ def reject_cases(rng, n_trees):
                     if third not in (pth, other):
                         set_leaf(tree, third, flipped)
                     k = "two"
-                out.append({"partial": rng.random() < 0.3, "tree": tree, "events": [{"base": ("drop", 0)}], "_kind": "reject:" + k})
+                # every other one is constructed by cleanup code running while the thread unwinds from an unrelated panic: the
+                # rejection must not depend on that
+                out.append({"partial": rng.random() < 0.3, "tree": tree, "events": [{"base": ("drop", 0)}], "_kind": "reject:" + k,
+                            "new_unwinding": len(out) % 2 == 1})
     return out
 
 
@@ -229,7 +246,7 @@ def write_gen_rs(cases):
 
 
 def harness_line(k, case):
-    return " ".join([f"case {k} {k}", "partial" if case["partial"] else "strict", f"E {len(case['events'])}"]
+    return " ".join([f"case {k} {k}", ("partial" if case["partial"] else "strict") + ("U" if case.get("new_unwinding") else ""), f"E {len(case['events'])}"]
                     + [K.event_tok(e) for e in case["events"]])
 
 
